@@ -66,6 +66,182 @@ class Builtins:
     def b_frac___sub__(self, *a):
         return self._frac('Sub')(*a)
 
+    def _endswith(self, sid_term, lit):
+        from .tokens import ends_with
+        return ends_with(sid_term, SStr(lit=lit).t)
+
+    def b_any_endswith(self, bound, args, kw, st, fr):
+        A = self.ex.C.AnyT
+        suf = args[0]
+        if suf.lit is None:
+            raise Unsupported('endswith with symbolic suffix')
+        # a non-string here is an AttributeError in CPython: outside A-exc (sorts trusted)
+        return self.ex.ok(SBool(self._endswith(A.sv(bound.t), suf.lit)), st)
+
+    def b_str_endswith(self, bound, args, kw, st, fr):
+        suf = args[0]
+        if bound.lit is not None and suf.lit is not None:
+            return self.ex.ok(SBool(bound.lit.endswith(suf.lit)), st)
+        if suf.lit is None:
+            raise Unsupported('endswith with symbolic suffix')
+        return self.ex.ok(SBool(self._endswith(bound.t, suf.lit)), st)
+
+    def b_str_startswith(self, bound, args, kw, st, fr):
+        from .tokens import starts_with
+        pre = args[0]
+        if bound.lit is not None and pre.lit is not None:
+            return self.ex.ok(SBool(bound.lit.startswith(pre.lit)), st)
+        if pre.lit is None:
+            raise Unsupported('startswith with symbolic prefix')
+        return self.ex.ok(SBool(starts_with(bound.t, pre.t)), st)
+
+    # ---- dictionaries / option values
+    def b_dict_get(self, bound, args, kw, st, fr):
+        C = self.ex.C
+        k = args[0]
+        d = args[1] if len(args) > 1 else NONE
+        v = z3.If(C.dict_has(st, bound, k), C.dict_val(st, bound, k).t, C.to_any(d).t)
+        return self.ex.ok(SAny(v), st)
+
+    def b_dict_setdefault(self, bound, args, kw, st, fr):
+        C = self.ex.C
+        k = args[0]
+        d = args[1] if len(args) > 1 else NONE
+        has = C.dict_has(st, bound, k)
+        cur = C.dict_val(st, bound, k).t
+        new = z3.If(has, cur, C.to_any(d).t)
+        C.dict_store(st, bound, k, SAny(new))
+        return self.ex.ok(SAny(new), st)
+
+    def b_dict_copy(self, bound, args, kw, st, fr):
+        C = self.ex.C
+        has, val = C.dict_arrays(st)
+        d = C.new_dict(st)
+        has, val = C.dict_arrays(st)
+        st.heap[('dict', 'has')] = z3.Store(has, d.t, z3.Select(has, bound.t))
+        st.heap[('dict', 'val')] = z3.Store(val, d.t, z3.Select(val, bound.t))
+        return self.ex.ok(d, st)
+
+    def b_dict_update(self, bound, args, kw, st, fr):
+        C = self.ex.C
+        o = args[0]
+        if not (isinstance(o, SRef) and o.cname == 'dict'):
+            raise Unsupported('dict.update with %r' % (o,))
+        has, val = C.dict_arrays(st)
+        k = z3.Const('k!upd', C.AnyT)
+        h1, h2 = z3.Select(has, bound.t), z3.Select(has, o.t)
+        v1, v2 = z3.Select(val, bound.t), z3.Select(val, o.t)
+        nh = z3.Lambda([k], z3.Or(z3.Select(h1, k), z3.Select(h2, k)))
+        nv = z3.Lambda([k], z3.If(z3.Select(h2, k), z3.Select(v2, k), z3.Select(v1, k)))
+        st.heap[('dict', 'has')] = z3.Store(has, bound.t, nh)
+        st.heap[('dict', 'val')] = z3.Store(val, bound.t, nv)
+        return self.ex.ok(NONE, st)
+
+    def b_re_match(self, args, kw, st, fr):
+        "re.match(r'\\d+$', s)  (the only patterns droop uses: digits, optionally signed)"
+        from .anyval import is_digits
+        pat, s = args
+        if pat.lit not in (r'\d+$', r'-?\d+$'):
+            raise Unsupported('regular expression %r' % pat.lit)
+        a = self.ex.C.to_any(s)
+        A = self.ex.C.AnyT
+        if pat.lit == r'\d+$':
+            return self.ex.ok(SBool(z3.And(A.is_s(a.t), is_digits(A.sv(a.t)))), st)
+        from .tokens import is_sdigits
+        return self.ex.ok(SBool(z3.And(A.is_s(a.t), is_sdigits(A.sv(a.t)))), st)
+
+    def b_spec_dhas(self, args, kw, st, fr):
+        return self.ex.ok(SBool(self.ex.C.dict_has(st, args[0], args[1])), st)
+
+    def b_spec_dval(self, args, kw, st, fr):
+        return self.ex.ok(self.ex.C.dict_val(st, args[0], args[1]), st)
+
+    def b_spec_any_none(self, args, kw, st, fr):
+        return self.ex.ok(SAny(self.ex.C.AnyT.none), st)
+
+    def b_spec_any_of(self, args, kw, st, fr):
+        return self.ex.ok(self.ex.C.to_any(args[0]), st)
+
+    def b_spec_any_eq(self, args, kw, st, fr):
+        return self.ex.ok(SBool(self.ex.C.any_eq(args[0], args[1])), st)
+
+    def b_spec_returned_class(self, args, kw, st, fr):
+        r = self.ex.spec_result
+        return self.ex.ok(SBool(isinstance(r, SClass) and r.info.name == args[0].lit), st)
+
+    def b_spec_any_same(self, args, kw, st, fr):
+        "structural identity of two option values (no True == 1 coercion)"
+        return self.ex.ok(SBool(self.ex.C.to_any(args[0]).t == self.ex.C.to_any(args[1]).t), st)
+
+    def b_spec_any_is_none(self, args, kw, st, fr):
+        return self.ex.ok(SBool(self.ex.C.to_any(args[0]).t == self.ex.C.AnyT.none), st)
+
+    def b_spec_any_is_int(self, args, kw, st, fr):
+        A = self.ex.C.AnyT
+        return self.ex.ok(SBool(A.is_i(self.ex.C.to_any(args[0]).t)), st)
+
+    def b_spec_any_int_value(self, args, kw, st, fr):
+        A = self.ex.C.AnyT
+        return self.ex.ok(SInt(A.iv(self.ex.C.to_any(args[0]).t)), st)
+
+    def b_spec_distinct_refs(self, args, kw, st, fr):
+        return self.ex.ok(SBool(z3.Distinct(*[a.t for a in args])), st)
+
+    def b_spec_is_digit_string(self, args, kw, st, fr):
+        from .anyval import is_digits
+        if isinstance(args[0], SStr) and args[0].lit is not None:
+            import re as _re
+            return self.ex.ok(SBool(bool(_re.match(r'\d+$', args[0].lit))), st)
+        A = self.ex.C.AnyT
+        a = self.ex.C.to_any(args[0])
+        return self.ex.ok(SBool(z3.And(A.is_s(a.t), is_digits(A.sv(a.t)))), st)
+
+    def b_spec_int_accepts(self, args, kw, st, fr):
+        from .anyval import int_ok
+        A = self.ex.C.AnyT
+        a = self.ex.C.to_any(args[0])
+        return self.ex.ok(SBool(z3.And(A.is_s(a.t), int_ok(A.sv(a.t)))), st)
+
+    def b_spec_norm_any(self, args, kw, st, fr):
+        from .anyval import is_digits, int_of_str
+        A = self.ex.C.AnyT
+        if isinstance(args[0], SStr) and args[0].lit is not None:
+            import re as _re
+            lit = args[0].lit
+            if _re.match(r'\d+$', lit) and len(lit) < 4300:
+                return self.ex.ok(SAny(A.i(z3.IntVal(int(lit)))), st)
+            if not _re.match(r'\d+$', lit):
+                return self.ex.ok(self.ex.C.to_any(args[0]), st)
+        a = self.ex.C.to_any(args[0])
+        return self.ex.ok(SAny(z3.If(z3.And(A.is_s(a.t), is_digits(A.sv(a.t))), A.i(int_of_str(A.sv(a.t))), a.t)), st)
+
+    def b_spec_old_dict(self, args, kw, st, fr):
+        pre = self.ex.spec_pre or st
+        has, val = self.ex.C.dict_arrays(pre)
+        d = args[0]
+        v = SSpecial('dictsnap')
+        v.has, v.val = z3.Select(has, d.t), z3.Select(val, d.t)
+        return self.ex.ok(v, st)
+
+    def b_spec_dict_same(self, args, kw, st, fr):
+        d, snap = args
+        has, val = self.ex.C.dict_arrays(st)
+        h, v = z3.Select(has, d.t), z3.Select(val, d.t)
+        return self.ex.ok(SBool(z3.And(h == snap.has, v == snap.val)), st)
+
+    def b_spec_dict_is(self, args, kw, st, fr):
+        "dict_is(d, snapshot, key, value): d == snapshot with key bound to value (as arrays: no quantifier)"
+        d, snap, key, value = args
+        has, val = self.ex.C.dict_arrays(st)
+        kt = self.ex.C.to_any(key).t
+        vt = self.ex.C.to_any(value).t
+        h, v = z3.Select(has, d.t), z3.Select(val, d.t)
+        return self.ex.ok(SBool(z3.And(h == z3.Store(snap.has, kt, z3.BoolVal(True)), v == z3.Store(snap.val, kt, vt))), st)
+
+    def b_spec_any_mem(self, args, kw, st, fr):
+        L, x = args
+        return self.ex.ok(SBool(L.mem(self.ex.C.to_any(x).t)), st)
+
     # ---- election model vocabulary
     def b_spec_ghost(self, args, kw, st, fr):
         from .models import ghost_get
